@@ -214,9 +214,12 @@ class Task(NamedUIDObject):
 
         if self.optional:  # in this case the previous assertions maybe skipped
             self._scheduled = z3.Bool(f"{self.name}_scheduled")
-            # the first task is moved to -1, the second to -2
-            # etc.
-            point_in_past = -self._task_number
+            # an unscheduled task is moved to a point in the past that nothing else
+            # in the problem uses (the busy intervals of unselected workers are also
+            # moved to such points: they must not collide)
+            point_in_past = (
+                processscheduler.base.active_problem.get_unique_negative_integer()
+            )
             if isinstance(self, VariableDurationTask):
                 not_scheduled_assertion = z3.And(
                     self._start == point_in_past,  # to past
